@@ -13,6 +13,7 @@ import (
 	"strings"
 	"testing"
 	"time"
+	_ "time/tzdata"
 
 	"cosmossdk.io/math"
 	sdk "github.com/cosmos/cosmos-sdk/types"
@@ -161,6 +162,12 @@ type evalRec struct {
 func TestC23(t *testing.T) {
 	zerolog.SetGlobalLevel(zerolog.Disabled)
 	run := ev.Start("C23")
+	// the credit is chain state: the time zone of the node process must not matter. Run the whole check in a zone with
+	// daylight-saving switches (the sequences below cross many of them); zone data comes from the embedded time/tzdata
+	if loc, err := time.LoadLocation("America/New_York"); err == nil {
+		time.Local = loc
+		run.Set("process_time_zone", loc.String())
+	}
 	nseq := run.Pick(1500, 60000)
 	perWorld := 150
 	var w *world
